@@ -542,6 +542,10 @@ func GenC04(r *hx.Rand, thorough bool) History {
 			h.Ops = append(h.Ops, Op{K: "resetmeta"}, Op{K: "up"})
 		case x < 94: // run-time reset (auto-recover)
 			h.Ops = append(h.Ops, Op{K: "autorecover"})
+			if r.Chance(50) {
+				// a transient replica fault during the first sync after the reset, then it goes away
+				h.Ops = append(h.Ops, Op{K: "breakremote"}, Op{K: "sync"}, Op{K: "fixremote"})
+			}
 		default:
 		}
 		for i, n := 0, r.Intn(3); i < n; i++ {
